@@ -152,8 +152,9 @@ class Sandbox:
         self._mock_builtins(imported_module_data, builtins)
         # Compile and execute code
         compiled_code = compile(code, filename, 'exec')
-        with self.trace.as_filename(filename, code):
-            exec(compiled_code, imported_module_data)
+        # The tracer was already entered by the execution that triggered this import;
+        # entering it again overwrote its saved state and left the trace function installed.
+        exec(compiled_code, imported_module_data)
         # Copy over data to module
         for key, value in imported_module_data.items():
             setattr(imported_module, key, value)
